@@ -150,6 +150,8 @@ func (c *Ctx) monoFunctionCurve(rule string, fn *ssa.Function, tb *ir.TB) {
 		label string
 		an    *mono.An
 		pos   token.Pos
+		phi   *ssa.Phi // when set: the value is this phi restricted to the edges in `edges`
+		edges map[int]bool
 	}
 	var evs []edgeVal
 	newAn := func(f *ssa.Function) *mono.An {
@@ -169,8 +171,28 @@ func (c *Ctx) monoFunctionCurve(rule string, fn *ssa.Function, tb *ir.TB) {
 				}
 			}
 			if split {
-				for i, e := range phi.Edges {
-					enum(an, f, e, ranges.FactsAt(phi.Block(), phi.Block().Preds[i]), depth+1, pos)
+				// several edges of one form (the form's own if/else) stay together as one piecewise value
+				groups := map[string][]int{}
+				var order []string
+				for i := range phi.Edges {
+					l := c.curveFormLabel(ranges.FactsAt(phi.Block(), phi.Block().Preds[i]), phi.Edges[i], tb)
+					if _, ok := groups[l]; !ok {
+						order = append(order, l)
+					}
+					groups[l] = append(groups[l], i)
+				}
+				for _, l := range order {
+					g := groups[l]
+					if len(g) == 1 {
+						i := g[0]
+						enum(an, f, phi.Edges[i], ranges.FactsAt(phi.Block(), phi.Block().Preds[i]), depth+1, pos)
+						continue
+					}
+					set := map[int]bool{}
+					for _, i := range g {
+						set[i] = true
+					}
+					evs = append(evs, edgeVal{val: phi, label: l, an: an, pos: pos, phi: phi, edges: set})
 				}
 				return
 			}
@@ -196,7 +218,7 @@ func (c *Ctx) monoFunctionCurve(rule string, fn *ssa.Function, tb *ir.TB) {
 				}
 			}
 		}
-		evs = append(evs, edgeVal{rv, facts, c.curveFormLabel(facts, rv, tb), an, pos})
+		evs = append(evs, edgeVal{val: rv, facts: facts, label: c.curveFormLabel(facts, rv, tb), an: an, pos: pos})
 	}
 	for _, ret := range ir.Returns(fn) {
 		facts0 := ranges.FactsAt(ret.Block(), nil)
@@ -216,7 +238,12 @@ func (c *Ctx) monoFunctionCurve(rule string, fn *ssa.Function, tb *ir.TB) {
 			continue
 		}
 		seen[key] = true
-		d := ev.an.Eval(ev.val, ev.facts)
+		var d mono.Dir
+		if ev.phi != nil {
+			d = ev.an.PhiWhere(ev.phi, func(i int) bool { return ev.edges[i] })
+		} else {
+			d = ev.an.Eval(ev.val, ev.facts)
+		}
 		if d == mono.Up {
 			c.R.Add(obOK(rule, key, fk, c.P.Pos(ev.pos), "the '"+ev.label+"' value is non-decreasing in every member's value", ev.an.SortedHyps()))
 		} else {
@@ -253,6 +280,7 @@ func (c *Ctx) monoInterpolation(rule string, tb *ir.TB) {
 		return
 	}
 	an := c.newMono(fn, tb)
+	an.SelectionIndep = true // which segment is selected (scan, binary search) is not decided here
 	an.Source = func(v ssa.Value) (mono.Dir, bool) {
 		if v == ssa.Value(input) {
 			return mono.Up, true
@@ -275,8 +303,11 @@ func (c *Ctx) monoInterpolation(rule string, tb *ir.TB) {
 			return nil, 0, false
 		}
 		idx := ir.Resolve(ia.Index)
-		if bo, isBin := idx.(*ssa.BinOp); isBin && bo.Op == token.ADD {
+		if bo, isBin := idx.(*ssa.BinOp); isBin && (bo.Op == token.ADD || bo.Op == token.SUB) {
 			if k, isConst := ir.ConstInt(bo.Y); isConst {
+				if bo.Op == token.SUB {
+					k = -k
+				}
 				return ir.Resolve(bo.X), k, true
 			}
 		}
@@ -319,6 +350,19 @@ func (c *Ctx) monoInterpolation(rule string, tb *ir.TB) {
 		}
 		if laterKey(neg, pos) {
 			return false, true, true
+		}
+		// step values at a later and an earlier key
+		k1, ok1 := stepAt(pos)
+		k2, ok2 := stepAt(neg)
+		if ok1 && ok2 {
+			if laterKey(k1, k2) {
+				an.Hyp("premise: the step values do not decrease with the key (temperature)")
+				return true, false, true
+			}
+			if laterKey(k2, k1) {
+				an.Hyp("premise: the step values do not decrease with the key (temperature)")
+				return false, true, true
+			}
 		}
 		return false, false, false
 	}
